@@ -28,13 +28,34 @@ def feasible(assertions):
     return r != z3.unsat
 
 
-def _index_terms(exprs, sort, cap=60):
-    """Ground terms of `sort` that occur as index of a select/store (or as
-    argument of an uninterpreted function) in exprs."""
+def entails(pc, goal):
+    """pc |= goal (definitely)."""
+    s = z3.Solver()
+    s.set("timeout", FEAS_TIMEOUT_MS)
+    s.add(z3.And(pc) if len(pc) > 1 else pc)
+    s.add(z3.Not(goal))
+    return s.check() == z3.unsat
+
+
+_TERM_CACHE = {}
+
+
+def _terms_of(e0):
+    """All index-position ground terms of one formula, grouped by sort
+    (cached per formula: path conditions share most of their conjuncts)."""
+    hit = _TERM_CACHE.get(e0.get_id())
+    if hit is not None and hit[0].eq(e0):
+        return hit[1]
+    by_sort = {}
     seen = set()
-    out = []
-    todo = list(exprs)
+    todo = [e0]
     visited = set()
+
+    def add(t):
+        if t.get_id() in seen:
+            return
+        seen.add(t.get_id())
+        by_sort.setdefault(t.sort().get_id(), []).append(t)
     while todo:
         e = todo.pop()
         if e.get_id() in visited:
@@ -46,24 +67,35 @@ def _index_terms(exprs, sort, cap=60):
             k = e.decl().kind()
             ch = e.children()
             if k in (z3.Z3_OP_SELECT, z3.Z3_OP_STORE) and len(ch) >= 2:
-                idx = ch[1]
-                if idx.sort() == sort and idx.get_id() not in seen:
-                    seen.add(idx.get_id())
-                    out.append(idx)
+                add(ch[1])
             elif k == z3.Z3_OP_UNINTERPRETED and ch:
                 for c in ch:
-                    if c.sort() == sort and c.get_id() not in seen:
-                        seen.add(c.get_id())
-                        out.append(c)
+                    add(c)
             elif k == z3.Z3_OP_EQ:
                 for c in ch:
-                    if c.sort() == sort and z3.is_const(c) and \
-                            c.decl().kind() == z3.Z3_OP_UNINTERPRETED and \
-                            c.get_id() not in seen:
-                        seen.add(c.get_id())
-                        out.append(c)
+                    if z3.is_const(c) and c.decl().kind() == z3.Z3_OP_UNINTERPRETED:
+                        add(c)
             todo.extend(ch)
-    return out[:cap]
+    if len(_TERM_CACHE) > 200000:
+        _TERM_CACHE.clear()
+    _TERM_CACHE[e0.get_id()] = (e0, by_sort)
+    return by_sort
+
+
+def _index_terms(exprs, sort, cap=60):
+    """Ground terms of `sort` that occur as index of a select/store (or as
+    argument of an uninterpreted function) in exprs."""
+    sid = sort.get_id()
+    seen = set()
+    out = []
+    for e in exprs:
+        for t in _terms_of(e).get(sid, ()):
+            if t.get_id() not in seen:
+                seen.add(t.get_id())
+                out.append(t)
+                if len(out) >= cap:
+                    return out
+    return out
 
 
 def instantiate(qhyps, base, rounds=2):
@@ -80,9 +112,17 @@ def instantiate(qhyps, base, rounds=2):
                 if key in seen:
                     continue
                 seen.add(key)
-                try:
-                    f = q.body(t)
-                except z3.Z3Exception:
+                cache = q.__dict__.setdefault("_cache", {})
+                hit = cache.get(t.get_id())
+                if hit is not None and hit[0].eq(t):
+                    f = hit[1]
+                else:
+                    try:
+                        f = q.body(t)
+                    except z3.Z3Exception:
+                        f = None
+                    cache[t.get_id()] = (t, f)
+                if f is None:
                     continue
                 if f is not None and not z3.is_true(f):
                     new.append(f)
